@@ -495,11 +495,11 @@ static void run_exec(run_t *R)
 }
 
 /* ----------------------------------------------------------------------------- products -> config */
-enum { P_VER = 0, P_VERC, P_VERD, P_VXS, P_SUITE, P_SUITE12, P_GRP13, P_GRP12, P_SIG13, P_SIG12, P_SIG13CA, P_EMS, P_FB, P_RW, P_SHIST, P_EMSRES, P_NPROD };
-static const char *pname[] = { "ver", "verc", "verd", "vxs", "suite", "suite12", "grp13", "grp12", "sig13", "sig12", "sig13ca", "ems", "fb", "rw", "shist", "emsres" };
+enum { P_VER = 0, P_VERC, P_VERD, P_VXS, P_SUITE, P_SUITE12, P_GRP13, P_GRP12, P_SIG13, P_SIG12, P_SIG13CA, P_EMS, P_FB, P_RW, P_SHIST, P_EMSRES, P_DISRES, P_NPROD };
+static const char *pname[] = { "ver", "verc", "verd", "vxs", "suite", "suite12", "grp13", "grp12", "sig13", "sig12", "sig13ca", "ems", "fb", "rw", "shist", "emsres", "disres" };
 static long psize(int p)
 {
-    static const long n[] = { NVL * NVL, 2 * NVL * NVL, 4, NVL * NVL * 49, 225, 225, 450, 49, 225, 225, 225, 36, 25, 18, 258 * 9, 54 };
+    static const long n[] = { NVL * NVL, 2 * NVL * NVL, 4, NVL * NVL * 49, 225, 225, 450, 49, 225, 225, 225, 36, 25, 18, 258 * 9, 54, 16 };
     return n[p];
 }
 
@@ -626,6 +626,20 @@ static int build_cfg(int prod, long idx, ncfg_t *c)
         if (c->dtls) { set_dl(c->cver, &c->ncver, 1); set_dl(c->sver, &c->nsver, 1); }
         else { set_vl(c->cver, &c->ncver, mode == 2 ? 2 : 1); set_vl(c->sver, &c->nsver, mode == 2 ? 2 : 1); }
         c->csuite[0] = mode == 1 ? S_RSA : S_PSK; c->ncsuite = 1;
+        break;
+    }
+    case P_DISRES:
+    {
+        /* resumption of a session whose suite the server has switched off since: a first connection (all suites enabled),
+           then the judged server session disables one of the two suites the client offers; {session id, ticket} x which
+           suite x client order x {TLS 1.2, TLS 1.1} */
+        static const uint16_t pair[2] = { S_RSA, S_ERSAC };
+        int which = (int) (idx & 1), order = (int) (idx >> 1 & 1), tick = (int) (idx >> 2 & 1), v11 = (int) (idx >> 3 & 1);
+        c->prelude = 1; c->tickets = tick;
+        c->keys = K_RSA;
+        set_vl(c->cver, &c->ncver, v11 ? 2 : 1); set_vl(c->sver, &c->nsver, v11 ? 2 : 1);
+        c->csuite[0] = pair[order]; c->csuite[1] = pair[1 - order]; c->ncsuite = 2;
+        c->sdis[0] = pair[which]; c->nsdis = 1;
         break;
     }
     case P_EMSRES:
@@ -921,9 +935,9 @@ static void check_completed(run_t *R, const ref_t *ref, int assert_reference, ve
             if (ki >= 0 && sh->ext[ki].len >= 2) { g = (sh->arena[sh->ext[ki].off] << 8) | sh->arena[sh->ext[ki].off + 1]; used = 1; }
             if (used && (R->group[0] != g || R->group[1] != g)) VIOL("endpoints-disagree|group", "ServerHello key_share %04x, client state %04x, server state %04x", g, R->group[0], R->group[1]);
         }
-        else if (suite_is_ecdhe(suite))
+        else if (suite_is_ecdhe(suite) && R->ske_group != 0)
         {
-            g = R->ske_group; used = 1;
+            g = R->ske_group; used = 1;   /* (an abbreviated handshake has no ServerKeyExchange: no group is negotiated) */
         }
         if (used)
         {
@@ -1241,6 +1255,7 @@ int main(int argc, char **argv)
     for (i = 0; i < psize(P_VERC); i++) if (thorough || (i < NVL * NVL && i / NVL < 7 && i % NVL < 7)) add_case(P_VERC, i, -1, -1);
     for (i = 0; i < psize(P_EMS); i++) add_case(P_EMS, i, -1, -1);
     for (i = 0; i < psize(P_EMSRES); i++) add_case(P_EMSRES, i, -1, -1);
+    for (i = 0; i < psize(P_DISRES); i++) add_case(P_DISRES, i, -1, -1);
     for (i = 0; i < psize(P_FB); i++) add_case(P_FB, i, -1, -1);
     for (i = 0; i < psize(P_VXS); i++) if (thorough || (i % NVL < 7 && i / NVL % NVL < 7 && i / (NVL * NVL * 7) == 6)) add_case(P_VXS, i, -1, -1);
     for (i = 0; i < psize(P_SUITE); i++) add_case(P_SUITE, i, -1, -1);
